@@ -9,6 +9,7 @@ import Bourse.Model.Env
 import Bourse.Model.Agents
 import Bourse.Spec.Audit
 import Driver.Parse
+import Driver.AgentCfg
 
 open Bourse Bourse.Driver
 
@@ -201,6 +202,8 @@ structure EHist where
   simAgents : List RandomAgents := []
   simSteps : Nat := 0
   simSeed : Nat := 0
+  fagent : Option FAgentSt := none
+  pendingX : Option (List String) := none
 
 def parseTicks (s : String) : Option (List Nat) := (s.splitOn ",").mapM String.toNat?
 
@@ -235,6 +238,17 @@ def newEHist (toks : List String) : Option EHist :=
              rng := Xoro.seed (UInt64.ofNat seed), prevB := [], prevE := [], opIdx := 0, nSteps := 0,
              kDead := false, pendingE := none, pendingM := none, started := false, neverDisabled := trading,
              simAgents := ags, simSteps := steps, simSeed := seed }
+    else none
+  | [hid, profile, kind, seed, t0, ticks, step, trading, l, agentTok, bitsTok] =>
+    if kind == "env" || kind == "menv" then do
+      let seed ← seed.toNat?; let t0 ← t0.toNat?; let ticks ← parseTicks ticks; let step ← step.toNat?
+      let trading ← parseBool trading; let l ← l.toNat?
+      let ag ← parseFAgent agentTok bitsTok
+      pure { id := hid, profile := profile, kind := kind, ticks := ticks, nLevels := l, stepSize := step,
+             env := MEnv.new t0 ticks step trading l, market := Market.new t0 ticks trading,
+             rng := Xoro.seed (UInt64.ofNat seed), prevB := [], prevE := [], opIdx := 0, nSteps := 0,
+             kDead := false, pendingE := none, pendingM := none, started := false, neverDisabled := trading,
+             fagent := some ag }
     else none
   | [hid, profile, kind, seed, t0, ticks, step, trading, l] =>
     if kind == "env" || kind == "menv" then do
